@@ -383,6 +383,12 @@ pub fn run(o: &Opts) -> R<()> {
             }
         }
     }
+    // cyclic dataflow over a few slots (what the type checker's corner cases need), mostly under the library's defaults
+    for _ in 0..n_random / 4 {
+        let code = cyclic_dataflow(&mut rng);
+        let cfg = if rng.gen_bool(0.6) { default_cfg(rng.gen_bool(0.5)) } else { random_cfg(&mut rng) };
+        cases.push(("cyclic-dataflow".into(), code, cfg));
+    }
     for i in 0..n_random {
         let (fam, code): (&str, Vec<u8>) = match i % 7 {
             0 => {
